@@ -365,7 +365,8 @@ def check(ctx):
                      'every index/pop inside the held region is protected by a dominating check (%d nodes)' % len(r.held))
             # R7: completion callbacks outside the region
             for n in r.held:
-                for c in walk_own(n.ast) if n.ast is not None and n.kind in ('stmt', 'if') else []:
+                # (of an `if` node only the test is evaluated at the node; its branches are nodes of their own)
+                for c in (walk_own(n.ast) if n.kind == 'stmt' else walk_own(n.ast.test)) if n.ast is not None and n.kind in ('stmt', 'if') else []:
                     if isinstance(c, ast.Call) and norm(c.func) in ('self.mem_write_cb.call', 'self.mem_write_failed_cb.call'):
                         ctx.inst('R7', f, 'callback-under-lock:' + norm(c.func), False,
                                  'completion callback invoked while the write lock is held (a write started from the callback deadlocks)', line=n.line)
